@@ -189,6 +189,39 @@ func TestC08WholePackets(t *testing.T) {
 			},
 		})
 
+		// One ending in four: Disconnect (its quit fired already, or not)
+		// while a writer sits inside a packet; nothing may be written into
+		// that packet. The other endings drain.
+		if c := h.Current(); c != nil && c.Accepted() && c.WritersParked() == 0 && rapid.IntRange(0, 3).Draw(rt, "disconnectAtEnd") == 0 {
+			h.armWrite(cut(), sim.WPark)
+			stuck := h.pub(byte(rapid.IntRange(0, 2).Draw(rt, "stuckLevel")), false)
+			kind := rapid.SampledFrom([]string{"closed", "later", "nil"}).Draw(rt, "disconnectQuit")
+			var quit chan struct{}
+			if kind != "nil" {
+				quit = make(chan struct{})
+			}
+			if kind == "closed" {
+				close(quit)
+			}
+			h.Act("disconnect quit=%s while %d writers are parked", kind, c.WritersParked())
+			dc := h.Go("disconnect", &Req{Kind: "disconnect", Quit: kind}, func() (<-chan error, error) { return nil, h.Client.Disconnect(quit) })
+			h.PollQuiet(quiet, func() bool { return h.IsDone(dc) })
+			if kind == "later" {
+				close(quit)
+				h.PollQuiet(quiet, func() bool { return h.IsDone(dc) })
+			}
+			for _, cc := range h.AllConns() {
+				for cc.ReleaseWrite() {
+				}
+			}
+			h.MustPoll("Disconnect returning", func() bool { return h.IsDone(dc) })
+			h.SettleCall(stuck)
+			noPanics(h)
+			h.checkWire()
+			h.label("disconnect-while-a-writer-is-inside-a-packet")
+			overlap = true
+			return
+		}
 		h.drain(h.allPersistedDone)
 		final = true
 		h.PollExchanges()
